@@ -38,7 +38,7 @@ def cases(tier, seed):
         nv = len(A.tree_vars(tree))
         positions = sorted(A.tree_vars(tree))
         for inp in KINDS:
-            for numbering in ["id", "h8"] + (["gap", "h16"] if thorough else []):
+            for numbering in ["id", "h8"] + (["gap"] if thorough and inp in ("emb", "gau", "cat-logits") else []):
                 if not thorough and numbering == "h8" and inp not in ("emb", "gau"):
                     continue
                 if not thorough and nv == 3 and inp in ("cat-probs", "gau-lp", "bin-probs") and style != "cpt":
@@ -49,6 +49,8 @@ def cases(tier, seed):
                 for sub in pools.subsets(positions):
                     doms = [obs_values(inp, p) for p in sub]
                     combos = list(itertools.product(*doms))
+                    if thorough and len(combos) > 6:
+                        combos = combos[:3] + combos[-3:]
                     if not thorough and len(combos) > 2:
                         combos = [combos[0], combos[-1]] if inp in ("emb", "gau", "cat-logits") else [combos[-1]]
                     for vals in combos:
